@@ -72,6 +72,7 @@ CALL_LIMIT_S = float(os.environ.get("VERIF_CALL_LIMIT_S", "30"))
 
 
 HANGS = [0]
+_PREFILL = [0]
 
 
 def _on_alarm(sig, frame):
@@ -110,6 +111,20 @@ def run_collect(fn, *args):
         if isinstance(e, (KeyboardInterrupt, SystemExit)):
             raise
         return [err_code(x) for x in errs], ("raised:" + type(e).__name__), errs
+    # the caller's list may already hold entries (validate.tree shares one list over the whole walk): what is appended
+    # must not depend on them, and they must stay where they are
+    _PREFILL[0] += 1
+    if _PREFILL[0] % 3 == 0:
+        sentinel = ("sentinel", "earlier entry", None)
+        pre = [sentinel]
+        try:
+            limited(fn, *args, pre)
+        except BaseException as e:   # noqa
+            if isinstance(e, (KeyboardInterrupt, SystemExit)):
+                raise
+            return [err_code(x) for x in errs], ("raised:" + type(e).__name__ + " (error list not empty on entry)"), errs
+        if pre[:1] != [sentinel] or [err_code(x) for x in pre[1:]] != [err_code(x) for x in errs]:
+            return [err_code(x) for x in errs], "raised:ResultDependsOnEarlierEntries", errs
     return [err_code(x) for x in errs], None, errs
 
 
